@@ -10,7 +10,23 @@ Proof. exact run_invalid_inert. Qed.
 Theorem C05_app_valid_iff : forall a, app_valid a = true <-> a_id a <> [] /\ a_ver a <> (0, 0, 0, 0)%N.
 Proof. exact app_valid_iff. Qed.
 
+(* ... whatever is stored for the apps: loading fills in cohort and dates, never id or version.  So the trace of a
+   machine started on an app set with an invalid app is empty (the rule the check applies to implementation traces) *)
+Lemma app_load_valid s a : app_valid (app_load s a) = app_valid a.
+Proof.
+  unfold app_load. destruct (sm_get s (a_id a)) as [[z|js|b]|]; try reflexivity. destruct (decode_persisted js) as [[c u]|]; reflexivity.
+Qed.
+Theorem C05_invalid_app_set_trace_is_empty :
+  forall cfg url cup apps e, e_trace e = [] -> forallb app_valid apps = false -> run_case EStart cfg url cup apps e = [].
+Proof.
+  intros cfg url cup apps e Ht Hv. unfold run_case.
+  assert (Hb : forallb app_valid (m_apps (build cfg url cup apps (e_store e))) = false).
+  { unfold build. destruct (ctx_load (pend (e_store e))). cbn [m_apps]. rewrite <- Hv. clear Hv. induction apps as [|a l IH]; [reflexivity|]. cbn [map forallb]. rewrite app_load_valid, IH. reflexivity. }
+  rewrite (run_invalid_inert _ _ _ e Hb). rewrite Ht. reflexivity.
+Qed.
+
 Print Assumptions C05_invalid_app_set_inert.
+Print Assumptions C05_invalid_app_set_trace_is_empty.
 
 (* ---- the consent monitor (Model/Monitors.v step5) accepts every trace of the model ----
    step5 rejects: a request or installer call outside a check the policy allowed; a request inside a check whose
